@@ -46,7 +46,7 @@ func (s *Server) verifCommand(msg *Message) (res resp.Value, err error, ok bool)
 		}
 		if h.Fence != nil && h.Fence.obj != nil {
 			ntree++
-			rect := h.Fence.obj.Rect()
+			rect := hookRect(h)
 			find := func(tr interface {
 				Search(min, max [2]float64, iter func(min, max [2]float64, data interface{}) bool)
 			}) bool {
